@@ -61,20 +61,29 @@ pub fn apply(lib: Library) -> Result<Library, Vec<Diagnostic>> {
     let mut postfix_types = Vec::new();
     let mut types_by_name: HashMap<Id, DataTypeDeclarationKind> = HashMap::new();
     let mut elems_by_name: HashMap<Id, LibraryElementKind> = HashMap::new();
+    // The maps are keyed by name so two declarations having the same name must be
+    // reported rather than silently keeping only one of them.
+    let mut duplicates: Vec<Diagnostic> = Vec::new();
     for element in lib.elements {
         match element {
             LibraryElementKind::DataTypeDeclaration(decl) => {
                 match decl {
                     DataTypeDeclarationKind::Enumeration(decl) => {
-                        types_by_name.insert(
+                        insert_unique(
+                            &mut types_by_name,
                             decl.type_name.name.clone(),
                             DataTypeDeclarationKind::Enumeration(decl),
+                            Problem::DeclarationNameDuplicated,
+                            &mut duplicates,
                         );
                     }
                     DataTypeDeclarationKind::Subrange(decl) => {
-                        types_by_name.insert(
+                        insert_unique(
+                            &mut types_by_name,
                             decl.type_name.name.clone(),
                             DataTypeDeclarationKind::Subrange(decl),
+                            Problem::DeclarationNameDuplicated,
+                            &mut duplicates,
                         );
                     }
                     DataTypeDeclarationKind::Simple(decl) => {
@@ -84,21 +93,30 @@ pub fn apply(lib: Library) -> Result<Library, Vec<Diagnostic>> {
                         ));
                     }
                     DataTypeDeclarationKind::Array(decl) => {
-                        types_by_name.insert(
+                        insert_unique(
+                            &mut types_by_name,
                             decl.type_name.name.clone(),
                             DataTypeDeclarationKind::Array(decl),
+                            Problem::DeclarationNameDuplicated,
+                            &mut duplicates,
                         );
                     }
                     DataTypeDeclarationKind::Structure(decl) => {
-                        types_by_name.insert(
+                        insert_unique(
+                            &mut types_by_name,
                             decl.type_name.name.clone(),
                             DataTypeDeclarationKind::Structure(decl),
+                            Problem::DeclarationNameDuplicated,
+                            &mut duplicates,
                         );
                     }
                     DataTypeDeclarationKind::StructureInitialization(decl) => {
-                        types_by_name.insert(
+                        insert_unique(
+                            &mut types_by_name,
                             decl.type_name.name.clone(),
                             DataTypeDeclarationKind::StructureInitialization(decl),
+                            Problem::DeclarationNameDuplicated,
+                            &mut duplicates,
                         );
                     }
                     DataTypeDeclarationKind::String(decl) => {
@@ -108,38 +126,57 @@ pub fn apply(lib: Library) -> Result<Library, Vec<Diagnostic>> {
                         ));
                     }
                     DataTypeDeclarationKind::LateBound(decl) => {
-                        types_by_name.insert(
+                        insert_unique(
+                            &mut types_by_name,
                             decl.data_type_name.name.clone(),
                             DataTypeDeclarationKind::LateBound(decl),
+                            Problem::DeclarationNameDuplicated,
+                            &mut duplicates,
                         );
                     }
                 }
             }
             LibraryElementKind::FunctionDeclaration(decl) => {
-                elems_by_name.insert(
+                insert_unique(
+                    &mut elems_by_name,
                     decl.name.clone(),
                     LibraryElementKind::FunctionDeclaration(decl),
+                    Problem::DefinitionNameDuplicated,
+                    &mut duplicates,
                 );
             }
             LibraryElementKind::FunctionBlockDeclaration(decl) => {
-                elems_by_name.insert(
+                insert_unique(
+                    &mut elems_by_name,
                     decl.name.clone(),
                     LibraryElementKind::FunctionBlockDeclaration(decl),
+                    Problem::DefinitionNameDuplicated,
+                    &mut duplicates,
                 );
             }
             LibraryElementKind::ProgramDeclaration(decl) => {
-                elems_by_name.insert(
+                insert_unique(
+                    &mut elems_by_name,
                     decl.name.clone(),
                     LibraryElementKind::ProgramDeclaration(decl),
+                    Problem::DefinitionNameDuplicated,
+                    &mut duplicates,
                 );
             }
             LibraryElementKind::ConfigurationDeclaration(decl) => {
-                elems_by_name.insert(
+                insert_unique(
+                    &mut elems_by_name,
                     decl.name.clone(),
                     LibraryElementKind::ConfigurationDeclaration(decl),
+                    Problem::DefinitionNameDuplicated,
+                    &mut duplicates,
                 );
             }
         }
+    }
+
+    if !duplicates.is_empty() {
+        return Err(duplicates);
     }
 
     // Merge things back together
@@ -153,6 +190,28 @@ pub fn apply(lib: Library) -> Result<Library, Vec<Diagnostic>> {
     elements.extend(sorted_ids.iter().filter_map(|id| elems_by_name.remove(id)));
 
     Ok(Library { elements })
+}
+
+/// Inserts the declaration into the map unless the map already has a declaration
+/// with the same name, in which case reports the duplicate.
+fn insert_unique<V>(
+    map: &mut HashMap<Id, V>,
+    name: Id,
+    value: V,
+    problem: Problem,
+    duplicates: &mut Vec<Diagnostic>,
+) {
+    if let Some((first, _)) = map.get_key_value(&name) {
+        duplicates.push(
+            Diagnostic::problem(
+                problem,
+                Label::span(name.span.clone(), format!("Duplicate declaration {}", name)),
+            )
+            .with_secondary(Label::span(first.span.clone(), "First declaration")),
+        );
+        return;
+    }
+    map.insert(name, value);
 }
 
 struct DeclarationsGraph {
